@@ -20,7 +20,7 @@ import uuid
 from hypothesis import strategies as st
 
 from . import model, specs
-from .codec import Zoo
+from .codec import Wrapped, Zoo
 
 
 class Unsat(Exception):
@@ -104,7 +104,7 @@ TYPED_ZOO = {
     "str": ["str_subclass", "str_surrogate", "str_nul", "str_long", "empty_str"],
     "bytes": ["bytes_subclass", "bytes_long", "bytearray", "memoryview"],
     "list": ["list_subclass", "list_nested", "empty_list", "tuple", "range"],
-    "dict": ["dict_subclass", "ordereddict", "defaultdict", "dict_nonstr_keys", "empty_dict"],
+    "dict": ["dict_subclass", "ordereddict", "defaultdict", "dict_nonstr_keys", "empty_dict", "dict_twin_nan_keys"],
     "uuid4": ["uuid1", "uuid3", "uuid5", "uuid_nil", "uuid4"],
     "datetime": ["datetime_aware", "datetime_naive", "datetime_min", "datetime_max", "date_max", "time"],
     "date": ["datetime_naive", "datetime_aware", "date_min", "date_max", "datetime_max"],
@@ -252,7 +252,7 @@ def _gen_float(draw, spec, mut):
         else:
             v = draw(specs.finite_floats)
     if mut is not None and mut.take(draw, "float:near"):
-        cands = [v + 1.0, v - 1.0, v * (1 + 1e-5) + 1e-5, None, str(v),
+        cands = [v + 1.0, v - 1.0, v * (1 + 1e-5) + 1e-5, v * (1 + 1e-4) if v else 1e-300, None, str(v),
                  float("inf"), float("-inf"), float("nan")]
         if v == int(v) and abs(v) < 2 ** 53:
             cands.append(int(v))
@@ -427,7 +427,7 @@ def _gen_dict(draw, spec, mut):
         for k in draw(st.lists(st.sampled_from(free), max_size=2, unique_by=repr)):
             v[k] = draw(junk_scalar)
     if near and mut.take(draw, "dict:near"):
-        ops = ["extra", "none", "pairs"]
+        ops = ["extra", "none", "pairs", "subclass", "subclass-drop"]
         if v:
             ops += ["drop", "drop", "rename", "junk-member"]
         missing_opt = [e for e in ents if e["opt"] and not _key_in(e["key"], list(v))]
@@ -438,6 +438,14 @@ def _gen_dict(draw, spec, mut):
             return None
         if op == "pairs":
             return list(v.items())
+        if op == "subclass":
+            # same content in a dict subclass (defaultdict, OrderedDict, __missing__ ...): still a dict
+            return Wrapped(draw(st.sampled_from(DICT_WRAPPERS)), dict(v))
+        if op == "subclass-drop":
+            w = dict(v)
+            if w:
+                del w[draw(st.sampled_from(list(w)))]
+            return Wrapped(draw(st.sampled_from(DICT_WRAPPERS)), w)
         w = dict(v)
         if op == "extra":
             w[draw(st.sampled_from(free))] = draw(junk_scalar)
@@ -547,6 +555,8 @@ def _step(draw, x):
             return draw(st.sampled_from([0.0, None, str(x), 1]))
         d = max(1e-5, abs(x) * 1e-5)
         alt = [x + d, x - d, x + 1.0, str(x), None, -x if x else 1.5]
+        # purely relative steps: they matter for magnitudes far below 1 (1e-17 vs 2e-17, 0.0 vs 5e-324)
+        alt += [x * 2, x / 2, x * (1 + 1e-4)] if x else [5e-324, 1e-300, -1e-17]
         if x == int(x) and abs(x) < 2 ** 53 and int(x) not in (0, 1):
             alt.append(int(x))
         return draw(st.sampled_from(alt))
@@ -711,6 +721,8 @@ ZOO = {
     "bytes_long": lambda: b"\xff" * 100, "list_nested": lambda: [[[]]],
     "dict_nonstr_keys": lambda: {None: 1, (1, 2): 2, 1.5: 3, b"k": 4, frozenset(): 5},
     "empty_list": lambda: [], "empty_dict": lambda: {}, "empty_str": lambda: "",
+    "dict_twin_nan_keys": lambda: {float("nan"): 1, float("nan"): 2, "a": 1},
+    "list_twin_items": lambda: [2.5, 2.5, "x", "x"],
 }
 ZOO_KEYS = ["true", "tuple", "frozenset", "fraction", "decimal", "nan", "inf", "int_10_400", "uuid1",
             "datetime_aware", "date_max", "ellipsis", "nil", "object", "function", "class",
@@ -721,10 +733,35 @@ zoo = st.sampled_from(sorted(ZOO)).map(Zoo)
 zoo_key = st.sampled_from(ZOO_KEYS).map(Zoo)
 
 
+def _missing_dict():
+    class CountingDict(dict):
+        def __missing__(self, key):
+            return 0
+    return CountingDict
+
+
+WRAPPERS = {
+    "defaultdict": lambda x: collections.defaultdict(int, x),
+    "defaultdict_list": lambda x: collections.defaultdict(list, x),
+    "ordereddict": lambda x: collections.OrderedDict(x),
+    "counter": lambda x: collections.Counter(x),
+    "missingdict": lambda x: _missing_dict()(x),
+    "dictsub": lambda x: _DictSub(x),
+    "listsub": lambda x: _ListSub(x),
+    "strsub": lambda x: _StrSub(x),
+    "intsub": lambda x: _IntSub(x),
+    "floatsub": lambda x: _FloatSub(x),
+    "bytessub": lambda x: _BytesSub(x),
+}
+DICT_WRAPPERS = ["defaultdict", "defaultdict_list", "ordereddict", "missingdict", "dictsub"]
+
+
 def realize(v):
     """value recipe -> fresh Python objects (Zoo markers resolved, containers copied)."""
     if isinstance(v, Zoo):
         return ZOO[v.name]()
+    if isinstance(v, Wrapped):
+        return WRAPPERS[v.kind](realize(v.value))
     if isinstance(v, list):
         return [realize(x) for x in v]
     if isinstance(v, tuple):
@@ -737,6 +774,8 @@ def realize(v):
 def has_zoo(v):
     if isinstance(v, Zoo):
         return True
+    if isinstance(v, Wrapped):
+        return has_zoo(v.value)
     if isinstance(v, (list, tuple)):
         return any(has_zoo(x) for x in v)
     if isinstance(v, dict):
